@@ -11,7 +11,7 @@
 (*   model, a, b, r, sina, cosa, m, n, fl, stack, off, y1, y2, mu, Ncte     *)
 (* and is completed by Complete(pd) with F, Fs, h from the laminate module. *)
 (***************************************************************************)
-EXTENDS PanelFieldOps
+EXTENDS PanelNL
 
 CONSTANTS Deviations      \* set of named deviations (known findings) switched on; {} = the literal properties
 
@@ -32,9 +32,13 @@ QuantityDev(d, r, dev) ==
       [] r.q = "strain" -> Fn([k \in 1..Len(r.pts) |-> StrainAt(d, r.c, r.pts[k][1], r.pts[k][2], r.NL, dev)])
       [] r.q = "stress" -> Fn([k \in 1..Len(r.pts) |-> StressAt(d, r.c, r.pts[k][1], r.pts[k][2], r.NL, dev)])
       [] r.q = "fext"   -> Fext(d, r.forces, r.forcesInc, r.inc)
-IsMatrixReq(r) == r.q \in {"k0", "kG0", "kM", "kA", "cA"}
+      (* non-linear quantities at a state c *)
+      [] r.q = "fint"   -> Fint(d, r.c)
+      [] r.q = "kT"     -> KT(d, r.c)
+      [] r.q = "kGc"    -> KGState(d, r.c, r.NL)
+IsMatrixReq(r) == r.q \in {"k0", "kG0", "kM", "kA", "cA", "kT", "kGc"}
 Placed(M, r) == IF r.size = 0 THEN M
-                ELSE IF r.q = "fext" THEN PlaceVec(M, r.size, r.col0) ELSE Place(M, r.size, r.row0, r.col0)
+                ELSE IF r.q \in {"fext", "fint"} THEN PlaceVec(M, r.size, r.col0) ELSE Place(M, r.size, r.row0, r.col0)
 Quantity(d, r) == Placed(QuantityDev(d, r, Deviations), r)
 
 NoDef == [model |-> "none"]
@@ -126,4 +130,46 @@ StrainEnergyNonNegative == (req # NoReq /\ req.q = "stress" /\ ~req.NL /\ Deviat
     \A k \in 1..Len(out) :
         LET e == LinStrain(def, req.c, req.pts[k][1], req.pts[k][2])
         IN RSign(RDot(Fn([p \in 1..6 |-> out[k][p][1]]), Fn([p \in 1..6 |-> e[p][1]]))) >= 0
+(* ---- non-linear consequences (C08, C03 state-based) ---------------------------------- *)
+ZeroState == Fn([k \in 1..Size(def) |-> RZero])
+NLReq == req # NoReq /\ req.size = 0 /\ req.q \in {"fint", "kT"}
+(* the internal force vanishes at the undeformed state and the tangent there is the linear stiffness *)
+AtRest == NLReq =>
+    /\ \A k \in 1..Size(def) : RIsZero(Fint(def, ZeroState)[k][1])
+    /\ Vals(KT(def, ZeroState)) = Vals(K0Lin(def))
+(* the tangent is symmetric (every entry from its own formula) *)
+TangentSymmetric == (req # NoReq /\ req.q = "kT" /\ req.size = 0) => MSym(Vals(KTFull(def, req.c)))
+(* the tangent is the Jacobian of the internal force: Fint is a cubic map of c, for which the 4-point
+   central stencil is exact:  KT(c) dir = [Fint(c-2h dir) - 8 Fint(c-h dir) + 8 Fint(c+h dir) - Fint(c+2h dir)] / 12h *)
+Dirs(n) == { Fn([i \in 1..n |-> RFromInt(((i * 3 + 1) % 5) - 2)]), Fn([i \in 1..n |-> IF i = n THEN ROne ELSE RZero]) }
+Along(c, dir, t) == Fn([i \in 1..Len(c) |-> RAdd(c[i], RMul(t, dir[i]))])
+FintV(c) == Fn([k \in 1..Size(def) |-> Fint(def, c)[k][1]])
+Stencil(f(_), h) == LET w(a, b) == RMul(RFromInt(a), b)
+                    IN RDiv(RAdd(RSub(f(RMul(RFromInt(-2), h)), w(8, f(RNeg(h)))), RSub(w(8, f(h)), f(RMul(Two, h)))), RMul(RFromInt(12), h))
+TangentIsJacobian == (req # NoReq /\ req.q = "kT" /\ req.size = 0) =>
+    \A dir \in Dirs(Size(def)) :
+        LET h == RQ(1, 4)
+            Kd == MVec(OutVals, dir)
+        IN \A k \in 1..Size(def) :
+              LET f(t) == FintV(Along(req.c, dir, t))[k] IN Kd[k] = Stencil(f, h)
+(* the internal force is the gradient of the strain energy (quartic in c: the same stencil is exact),
+   hence its work around any closed path vanishes *)
+ForceIsEnergyGradient == (req # NoReq /\ req.q = "fint" /\ req.size = 0) =>
+    \A dir \in Dirs(Size(def)) :
+        LET f(t) == Energy(def, Along(req.c, dir, t))
+        IN RDot(Fn([k \in 1..Len(out) |-> out[k][1]]), dir) = Stencil(f, RQ(1, 4))
+(* state-based geometric stiffness: a state of uniform membrane strain ex0 (u = ex0 x, which the basis
+   contains when all u edge functions are on: xi = (f2 - f0) + 2 (f1 + f3), 1 = g0 + g2) reproduces the
+   constant-load matrix of N = F[.,1] ex0 *)
+UniformState(d, ex0) == Fn([idx \in 1..Size(d) |->
+    IF DofOf(d, idx) = U /\ JOf(d, idx) \in {0, 2} /\ IOf(d, idx) < 4
+    THEN RMul(RMul(ex0, RDiv(d.a, Two)),
+              CASE IOf(d, idx) = 0 -> RFromInt(-1) [] IOf(d, idx) = 2 -> ROne [] OTHER -> Two)
+    ELSE RZero])
+UniformStressReproducesConstant ==
+    (req # NoReq /\ req.q = "kGc" /\ req.size = 0 /\ def.m >= 4 /\ def.n >= 3 /\ def.model = "plate"
+     /\ def.fl[U][1] = UnitFlags /\ def.fl[U][2] = UnitFlags) =>
+        LET ex0 == RQ(3, 16)
+            Nn == <<RMul(def.F[1][1], ex0), RMul(def.F[2][1], ex0), RMul(def.F[3][1], ex0)>>
+        IN Vals(KGState(def, UniformState(def, ex0), FALSE)) = Vals(KG0(def, Nn))
 =============================================================================
